@@ -15,6 +15,10 @@ FOCUS = {
     'C03': dict(roots=[(0, 1), (1, 1)], armed=['c03'], faults=['F-ORD'], hist=[]),
     'C04': dict(roots=[(0, 1), (1, 1)], armed=['c04'], faults=['F-ORD', 'F-BULK'], hist=['sched']),
     'C05': dict(roots=[(0, 1), (1, 1)], armed=['c05'], faults=['F-ORD'], hist=['sched']),
+    'C06': dict(roots=[(0, 1), (1, 1)], armed=['c03', 'c04', 'c05', 'attrs'], scope='derived', faults=['F-ORD'],
+                hist=[], derive=['slice'], p_derive=[0.15, 0.3], p_node=[0.1, 0.2]),
+    'C16': dict(roots=[(0, 1), (1, 1)], armed=['c03', 'c04', 'c05', 'attrs'], scope='derived', faults=['F-ORD'],
+                hist=[], derive=['convert', 'alias'], p_derive=[0.15, 0.3], p_node=[0.1, 0.25]),
     'C07': dict(roots=[(0, 1), (1, 1), (0, 0), (1, 0)], armed=['c07'], level='fault_enumeration', variants=True,
                 faults=['F-ORD', 'F-NOT', 'F-BULK', 'F-ITER'], hist=['shadow'], p_fault=[0.2, 0.3, 0.4]),
     'C08': dict(roots=[(0, 0), (1, 0)], armed=['c08'], faults=['F-ORD', 'F-BULK'], hist=['sched']),
@@ -72,6 +76,14 @@ def execute(world, op):
         out = ops.do_bulk(world, rep, op)
     elif kind == 'node':
         out = ops.do_node(world, rep, op)
+    elif kind == 'slice':
+        out = ops.do_slice(world, rep, op)
+    elif kind == 'slice2':
+        out = ops.do_slice2(world, rep, op)
+    elif kind == 'convert':
+        out = ops.do_convert(world, rep, op)
+    elif kind == 'mutate_attr':
+        out = ops.do_mutate_attr(world, rep, op)
     else:
         raise ValueError(kind)
     if out['out'] == 'skipped':
@@ -89,7 +101,18 @@ def execute(world, op):
                                    't': op['t'], 'e': op.get('e'), 'container': 'list'})
     world.rec({'op': op, 'out': out['out'], 'cls': out['cls']})
     if not world.quiet:
-        step_checks(world, rep, op, out)
+        if out.get('new') is not None:
+            step_checks(world, world.reps[out['new']], op, out)
+        else:
+            step_checks(world, rep, op, out)
+        if 'attrs' in world.armed:
+            for i, r in enumerate(world.reps):
+                if r.shared_attrs and r.prov != 'slice':
+                    continue
+                am = ops.attrs_mismatch(r.g, r.m) if r.prov != 'slice' else None
+                if am:
+                    raise Violation(world.focus + '.attrs', 'isolation-or-attrs', dict(am, replica=i, after=op))
+            world.evals += 1
     return out
 
 
@@ -133,6 +156,8 @@ def step_checks(world, rep, op, out):
     if 'c01' in armed:
         world.evals += getattr(rep, '_n', 1)
     nonempty = bool(m.keys())
+    if FOCUS[world.focus].get('scope') == 'derived' and not rep.derived:
+        return
     if 'c03' in armed and m.removal:
         world.evals += oracles.c03(rep)
     if 'c04' in armed and m.removal:
@@ -157,6 +182,18 @@ def gen_step(world, rng, cfg):
     if x < cfg['p_fault']:
         fault = rng.choice(spec['faults'])
     op = None
+    derive = spec.get('derive')
+    if derive and rng.random() < cfg.get('p_derive', 0) and rep.m.removal and (rep.m.keys() or rng.random() < 0.1):
+        d = rng.choice(derive)
+        if d == 'alias':
+            op = gen.gen_mutate_attr(rng, rep, cfg)
+        elif len(world.reps) < 4 or rng.random() < 0.3:
+            op = gen.gen_slice(rng, rep, cfg) if d == 'slice' else gen.gen_convert(rng, rep, cfg)
+            if len(world.reps) >= 4 and op['op'] != 'slice2':
+                op = None
+        if op is not None:
+            op['g'] = rep_i
+            return op
     if fault in ('F-BULK', 'F-ITER'):
         op = gen.gen_bulk(rng, rep, cfg, fault)
     elif fault in ('F-ORD', 'F-NOT'):
@@ -322,8 +359,9 @@ def run(focus, seed=None, ops_list=None, profile=None, keep_log=False):
     try:
         if ops_list is None:
             cfg = gen.swarm(rng, focus)
-            if 'p_fault' in FOCUS[focus]:
-                cfg['p_fault'] = rng.choice(FOCUS[focus]['p_fault'])
+            for knob in ('p_fault', 'p_derive', 'p_node'):
+                if knob in FOCUS[focus]:
+                    cfg[knob] = rng.choice(FOCUS[focus][knob])
             world.rec({'seed': seed, 'cfg': {k: v for k, v in cfg.items() if k != 'w'}})
             if 'sched' in FOCUS[focus]['hist'] and rng.random() < 0.3:
                 roots, a, b = gen_sched_run(world, rng, cfg)
